@@ -49,7 +49,8 @@ CLAIMED = {
                 tech="Coq proof: refinement of `descend` to the DfsKids relation + differential correspondence with an exact some-DFS-produces-this oracle on small graphs", ref="DESIGN.md §5 C10"),
     "C16": dict(text="Theorems (coq/props/C16.v) over declarations REGENERATED from the source on every run by tools/rs2coq_types.py: for all 64 (Send,Sync)-classes "
                      "of (K,N,E), Node/Edge/Graph of sync_digraph and sync_ungraph are Send (resp. Sync) exactly when K,N,E are all Send+Sync, and the plain types never; "
-                     "the solver's tables are fixpoints of rustc's structural auto-trait equations. Translator and rule table are validated every run against rustc's own "
+                     "the solver's tables are fixpoints of rustc's structural auto-trait equations; every `unsafe impl Send/Sync` claims only what the structural rule derives from the fields "
+                     "once the explicit impls are stripped (soundness of the unsafe impl). Translator and rule table are validated every run against rustc's own "
                      "trait solver on all 768 rows (generated probe crate, incl. generic positive obligations).",
                 tech="Coq proof over a model regenerated by a translator (case analysis + vm_compute) + exhaustive trait-table comparison with rustc", ref="DESIGN.md §5 C16",
                 note="Trusted: Coq kernel (vm_compute), the translator rs2coq_types.py and the auto-trait rule table of model/AutoTraits.v (both validated against rustc on 768 rows each "
